@@ -12,6 +12,7 @@ exception object ends up.  Programs start with `probe.hit` like the ones of
 `programs.py` and use the globals of `programs.initial_globals` plus
 `extra_globals()`.
 """
+import random
 
 
 class UserError(Exception):
@@ -147,3 +148,313 @@ def exception_value_program(rng, tag=None):
   else:
     raise AssertionError(tag)
   return '\n'.join(lines + body) + '\n', tag
+
+
+# -- deeply nested programs ------------------------------------------------------
+#
+# A construct may hide "at any nesting depth".  CPython itself parses, compiles
+# and runs very deep nests as long as they stay below its own limits (about
+# 1500 levels of the syntax tree, 200 nested brackets, 100 levels of
+# indentation, 20 nested loop/with/try blocks); whether a given text is below
+# them is decided by the caller by plain compile + exec.  (Loop/with/try nests
+# stay at 18: CPython 3.12 crashes - no exception - when compiling an inlined
+# comprehension inside exactly 20 of them.)  A "shape" fixes every
+# choice but the depth, so that the same shape can be rendered deep and - as a
+# control - at depth 3.
+
+DEEP_DEPTHS = [20, 50, 100, 200, 300, 400, 600, 900]
+# (kind, weight, cap of the drawn depth or None, type of the bottom value)
+DEEP_EXPR_KINDS = [
+    ('unary', 3, None, 'int'), ('binop-left', 2, None, 'int'), ('attribute', 1.5, None, 'int'),
+    ('power-right', 1, None, 'int'), ('slice-chain', 1.5, None, 'list'),
+    ('method-chain', 1.5, None, 'list'), ('lambda', 1.5, None, 'any'),
+    ('ifexp-chain', 1.5, None, 'any'), ('display', 1, 180, 'any'), ('call-nest', 1, 180, 'any'),
+]
+DEEP_STMT_KINDS = [
+    ('elif-chain', 3, None), ('if', 1, 98), ('else', 0.7, 98), ('def', 1, 98), ('def-called', 0.7, 98),
+    ('class', 0.7, 98), ('for', 0.5, 18), ('while', 0.5, 18), ('with', 0.5, 18),
+    ('try', 0.5, 18), ('mixed', 1.5, 98),
+]
+# (text, is a construct that needs a permission at the bottom)
+DEEP_INT_BOTTOMS = [('1', False), ('g0', False), ('gl[0]', False), ('gobj.a', False),
+                    ('ident(g0)', True), ('abs(g1)', True), ('len(gl)', True),
+                    ('(lambda: g0)()', True), ('(w := g0)', True), ('max(gl, key=lambda q: q)', True),
+                    ('(g1 if g0 else 0)', False), ('[c for c in gl][0]', False)]
+DEEP_LIST_BOTTOMS = [('gl', False), ('[g0, g1]', False), ('ident(gl)', True), ('sorted(gl)', True),
+                     ('(w := gl)', True), ('list(gl)', True), ('(lambda: gl)()', True),
+                     ('[c for c in gl]', False)]
+DEEP_STMT_BOTTOMS = [('pass', False), ('g0', False), ('gobj.a', False), ('y = g0', True),
+                     ('gl.append(g0)', True), ('y = ident(g0)', True), ('import math', True),
+                     ('assert g0', True), ('y = lambda: g0', True), ('print(g0)', True),
+                     ('(w := g1)', True), ("gd['d'] = g1", True), ('y: int = g1', True),
+                     ('gobj.a += 1', True)]
+DEEP_POSITIONS = ['assign', 'assign', 'expr', 'expr', 'call-arg', 'return', 'subscript-store',
+                  'condition', 'tuple']
+DEEP_FILLERS = ['t{n} = {n}', 'gl.append({n})', 'print({n})', '# comment {n}', 'pass',
+                "gd['n{n}'] = {n}", 'def unused{n}():\n  return {n}']
+DEEP_FINALS = ['g0 + 1', 'z9 = g1', 'gl', 'pass', "print('end')"]
+DEEP_MIXED_LEVELS = ['if', 'else', 'def', 'def-called', 'class', 'for', 'while', 'with', 'try']
+_BLOCK_LEVELS = ('for', 'while', 'with', 'try')
+
+
+def deep_nesting_shape(rng, big=False):
+  """Draws every choice of a deeply nested program (a dict of plain values).
+
+  big=True: a depth from the upper half of the range and a kind whose depth
+  is not capped by the bracket / indentation / block limits of CPython."""
+  shape = {'sub': rng.randrange(1 << 30)}
+  depth = rng.choice(DEEP_DEPTHS[5:] if big else DEEP_DEPTHS)
+  statement = rng.random() < (0.2 if big else 0.3)
+  shape['family'] = 'statement' if statement else 'expression'
+  if statement:
+    pool = [k for k in DEEP_STMT_KINDS if not (big and k[2])]
+    kind, _, cap = _pick(rng, pool, [k[1] for k in pool])
+    shape['kind'] = kind
+    shape['depth'] = min(depth, cap) if cap else depth
+    if kind != 'elif-chain' and rng.random() < 0.4:
+      # the bottom statement carries an expression nest of its own
+      ek, _, ecap, ety = _pick(rng, DEEP_EXPR_KINDS, [k[1] for k in DEEP_EXPR_KINDS])
+      ed = rng.choice(DEEP_DEPTHS)
+      shape['inner'] = {'kind': ek, 'depth': min(ed, ecap) if ecap else ed, 'type': ety,
+                        'sub': rng.randrange(1 << 30)}
+      shape['inner']['bottom'] = rng.choice(
+          DEEP_LIST_BOTTOMS if ety == 'list' else DEEP_INT_BOTTOMS
+          if ety == 'int' or rng.random() < 0.6 else DEEP_LIST_BOTTOMS)[0]
+      shape['inner']['unary'] = rng.choice(['-', '+', '~', 'not ', 'mixed', 'not-then-mixed'])
+      shape['inner_position'] = rng.choice(['assign', 'expr', 'call-arg', 'subscript-store'])
+      shape['bottom'] = None
+    else:
+      shape['bottom'] = rng.choice(DEEP_STMT_BOTTOMS)[0]
+    shape['bottom_in_test'] = kind == 'elif-chain' and rng.random() < 0.3
+    shape['test_bottom'] = rng.choice(DEEP_INT_BOTTOMS)[0]
+  else:
+    pool = [k for k in DEEP_EXPR_KINDS if not (big and k[2])]
+    kind, _, cap, ty = _pick(rng, pool, [k[1] for k in pool])
+    shape['kind'], shape['type'] = kind, ty
+    shape['depth'] = min(depth, cap) if cap else depth
+    pool = (DEEP_LIST_BOTTOMS if ty == 'list' else DEEP_INT_BOTTOMS
+            if ty == 'int' or rng.random() < 0.6 else DEEP_LIST_BOTTOMS)
+    shape['bottom'] = rng.choice(pool)[0]
+    shape['unary'] = rng.choice(['-', '+', '~', 'not ', 'mixed', 'not-then-mixed'])
+    shape['position'] = rng.choice(DEEP_POSITIONS)
+  shape['before'] = rng.choice([0, 0, 1, 2])
+  shape['after'] = rng.choice([0, 0, 0, 1, 2])
+  shape['final'] = rng.choice(DEEP_FINALS) if shape['after'] and rng.random() < 0.6 else None
+  return shape
+
+
+def _deep_expr(spec, depth):
+  """Text of one expression nest of the given depth."""
+  sub = random.Random(spec['sub'])
+  kind, bottom = spec['kind'], spec['bottom']
+  if kind == 'unary':
+    fam = spec['unary']
+    if fam in ('mixed', 'not-then-mixed'):
+      n_not = depth // 2 if fam == 'not-then-mixed' else 0
+      ops = ['not '] * n_not + [sub.choice('-+~') for _ in range(depth - n_not)]
+      # `- -x`: two adjacent signs never form another token, `--x` is fine as well
+      return ''.join(ops) + bottom
+    return fam * depth + bottom
+  if kind == 'binop-left':
+    ops = sub.choice([[' + 1', ' - 1'], [' * 1', ' // 1', ' % 1000'], [' | 0', ' | 1'], [' ^ 0'],
+                      [' + 1'], [' << 0', ' >> 0']])
+    return bottom + ''.join(sub.choice(ops) for _ in range(depth))
+  if kind == 'attribute':
+    attrs = sub.choice([['.real'], ['.numerator'], ['.real', '.numerator', '.imag.denominator']])
+    b = f'({bottom})' if bottom.isdigit() else bottom
+    return b + ''.join(sub.choice(attrs) for _ in range(depth))
+  if kind == 'power-right':
+    return '1 ** ' * depth + bottom
+  if kind == 'slice-chain':
+    parts = sub.choice([['[:]'], ['[0:]', '[:]', '[::1]'], ['[:9]']])
+    return bottom + ''.join(sub.choice(parts) for _ in range(depth))
+  if kind == 'method-chain':
+    return bottom + '.copy()' * depth
+  if kind == 'lambda':
+    return 'lambda: ' * depth + bottom
+  if kind == 'ifexp-chain':
+    return ''.join(f'{k % 7} if g0 < 0 else ' for k in range(depth)) + bottom
+  if kind == 'display':
+    o, c = sub.choice([('[', ']'), ('(', ',)'), ('{0: ', '}'), ('[g0, ', ']'), ('[*', ']')])
+    if o == '[*' and bottom not in [b for b, _ in DEEP_LIST_BOTTOMS]:
+      o, c = '[', ']'
+    return o * depth + bottom + c * depth
+  if kind == 'call-nest':
+    fn = sub.choice(['ident(', 'ident(*[', 'ident((lambda q: q)('])
+    close = {'ident(': ')', 'ident(*[': '])', 'ident((lambda q: q)(': '))'}[fn]
+    d = depth if fn == 'ident(' else depth // 2
+    return fn * d + bottom + close * d
+  raise AssertionError(kind)
+
+
+def _deep_position(position, expr):
+  """Lines of the statement that holds an expression nest."""
+  if position == 'assign':
+    return [f'v = {expr}']
+  if position == 'expr':
+    return [expr]
+  if position == 'call-arg':
+    return [f'v = ident({expr})']
+  if position == 'return':
+    return ['def fr():', f'  return {expr}', 'v = fr()']
+  if position == 'subscript-store':
+    return [f"gd['v'] = {expr}"]
+  if position == 'condition':
+    return [f'if {expr}:', '  v = 1', 'else:', '  v = 2']
+  if position == 'tuple':
+    return [f'v, u = g0, {expr}']
+  raise AssertionError(position)
+
+
+def _deep_levels(shape, depth, distinct=False):
+  """Kinds of the levels; distinct=True: one level of every kind used (control)."""
+  if distinct:
+    out = []
+    for lk in _deep_levels(shape, depth):
+      if lk not in out:
+        out.append(lk)
+    return out
+  sub = random.Random(shape['sub'])
+  kind = shape['kind']
+  levels, blocks = [], 0
+  for k in range(depth):
+    lk = kind
+    if kind == 'mixed':
+      lk = sub.choice(DEEP_MIXED_LEVELS)
+      if lk in _BLOCK_LEVELS and blocks >= 17:
+        lk = sub.choice(['if', 'def', 'class'])
+    if lk in _BLOCK_LEVELS:
+      blocks += 1
+    elif lk in ('def', 'def-called', 'class'):
+      blocks = 0
+    levels.append(lk)
+  return levels
+
+
+def _deep_statement(shape, depth, inner_depth, small=False):
+  """Lines of one statement nest (indentation: one blank per level)."""
+  if shape['bottom'] is None:
+    inner = shape['inner']
+    bottom = _deep_position(shape['inner_position'], _deep_expr(inner, inner_depth))
+  else:
+    bottom = [shape['bottom']]
+  if shape['kind'] == 'elif-chain':
+    lines = ['if g0 == -1:', ' pass']
+    for k in range(depth - 1):
+      lines += [f'elif g0 == {-2 - k}:', ' pass']
+    if shape['bottom_in_test']:
+      lines += [f'elif {shape["test_bottom"]} == -999:', ' pass', 'else:']
+    else:
+      lines += ['elif g0 == 3:']
+    return lines + [' ' + b for b in bottom]
+  lines, tails = [], []
+  if small and shape['kind'] == 'mixed':
+    levels = _deep_levels(shape, shape['depth'], distinct=True)
+  else:
+    levels = _deep_levels(shape, depth)
+  depth = len(levels)
+  for k, lk in enumerate(levels):
+    ind = ' ' * k
+    head, body_tail, after = {
+        'if': (['if g0:'], [], []),
+        'else': (['if not g0:', ' pass', 'else:'], [], []),
+        'while': (['while g0:'], ['break'], []),
+        'for': ([f'for i{k} in [g0]:'], [], []),
+        'def': ([f'def f{k}():'], [], []),
+        'def-called': ([f'def f{k}():'], [], [f'f{k}()']),
+        'class': ([f'class C{k}:'], [], []),
+        'with': (['with cm:'] if k % 2 else [f'with cm as c{k}:'], [], []),
+        'try': (['try:'], [], ['finally:', ' pass'] if k % 3 else ['except Exception:', ' pass']),
+    }[lk]
+    lines += [ind + h for h in head]
+    tails.append([ind + ' ' + t for t in body_tail] + [ind + a for a in after])
+  ind = ' ' * depth
+  lines += [ind + b for b in bottom]
+  for t in reversed(tails):
+    lines += t
+  return lines
+
+
+def render_deep_nesting(shape, small=False):
+  """Program text of a shape; small=True: the same shape at depth 3 (a mixed
+  statement nest: one level of every kind it uses)."""
+  depth = 3 if small else shape['depth']
+  if shape['family'] == 'statement':
+    inner_depth = 3 if small else (shape.get('inner') or {}).get('depth', 0)
+    nest = _deep_statement(shape, min(depth, shape['depth']), inner_depth, small)
+  else:
+    nest = _deep_position(shape['position'], _deep_expr(shape, depth))
+  lines = ['probe.hit']
+  for n in range(shape['before']):
+    lines += DEEP_FILLERS[(shape['sub'] + n) % len(DEEP_FILLERS)].format(n=n).split('\n')
+  lines += nest
+  for n in range(shape['after']):
+    lines += DEEP_FILLERS[(shape['sub'] // 7 + n) % len(DEEP_FILLERS)].format(n=10 + n).split('\n')
+  if shape['final']:
+    lines.append(shape['final'])
+  return '\n'.join(lines) + '\n'
+
+
+def deep_nesting_program(rng, big=False):
+  """Returns (program text, the same shape at depth 3, shape)."""
+  shape = deep_nesting_shape(rng, big)
+  return render_deep_nesting(shape), render_deep_nesting(shape, small=True), shape
+
+
+# -- programs that leave no new variable behind ------------------------------------
+#
+# The last statement has no value (pass, del, a loop, a condition, ...), and the
+# statements before it only read, print, mutate objects reachable from the
+# given globals, re-bind given globals, or delete what they defined.
+
+NONEW_BODY = [
+    'g0 + g1', 'gl[0]', 'gobj.a', "print('x', g0)", 'gl.append(g0)', "gd['k'] = g1",
+    "gd['n'] = [g0]", 'gobj.a = g0 + 1', 'gobj.b = 2', 'gl[0] = 7', 'gl.extend([1])', 'gl.sort()',
+    'g0 = g0', 'print(gl)', 'ident(g1)', 'if g0:\n  gl.append(1)', 'for _i in []:\n  pass',
+    'while False:\n  pass', 'with cm:\n  gobj.a = 5', 'assert g0', 'pass', '...',
+    'try:\n  gl.index(99)\nexcept ValueError:\n  pass', 'lambda: 0', 'global zq9',
+    "gd['tmp'] = 1\ndel gd['tmp']", 'match g0:\n  case 3:\n    gl.append(3)\n  case _:\n    pass',
+]
+NONEW_REBIND = ['g0 = 7', 'g1 = [g0]', 'g0 += 1\ng0 = g0 * 2', "g1 = 'rebound'", 'g1 = None', 'g0 = g1 = 9']
+# (statements that define a name, the name)
+NONEW_DEFINE = [
+    ('tmp = g0 * 2', 'tmp'), ('def helper():\n  return 1', 'helper'), ('import math', 'math'),
+    ('for e in gl:\n  gobj.a = e', 'e'), ('with cm as c:\n  pass', 'c'),
+    ('class Tmp:\n  pass', 'Tmp'), ('from math import pi', 'pi'), ('tmp: int = 3', 'tmp'),
+    ('[a, b] = [g0, g1]\ndel a', 'b'), ('(w := g0)', 'w'),
+    ('try:\n  gl[99]\nexcept IndexError as ex:\n  tmp = 1', 'tmp'),
+]
+NONEW_LAST = [
+    'pass', 'for _i in []:\n  pass', 'for _i in []:\n  pass\nelse:\n  gobj.a = 3',
+    'while False:\n  pass', 'while g0:\n  gl.append(0)\n  break', 'if g0:\n  gl.append(1)',
+    'if g0 > 100:\n  pass\nelif g1:\n  gobj.a = 2\nelse:\n  pass',
+    'try:\n  gl.index(99)\nexcept ValueError:\n  pass', 'try:\n  pass\nfinally:\n  gobj.a = 4',
+    'try:\n  pass\nexcept* ValueError:\n  pass', 'with cm:\n  pass', 'with cm:\n  gl.append(2)',
+    'global zq8', 'global zq7, zq6', 'assert g0', "assert gl, 'msg'", 'del gl[0]', "del gd['k']",
+    'del gobj.a', 'match g0:\n  case 3:\n    pass', 'match g1:\n  case 0:\n    pass\n  case _:\n    gl.append(1)',
+    'if g0:\n  for _i in []:\n    pass', 'for q in []:\n  pass',
+]
+
+
+def no_new_variable_program(rng):
+  """Returns (program text, kind of the tail: 'untouched' | 'rebinds' | 'deletes-own')."""
+  lines = ['probe.hit']
+  tail = 'untouched'
+  for _ in range(rng.choice([0, 0, 1, 1, 2, 3])):
+    lines += rng.choice(NONEW_BODY).split('\n')
+  if rng.random() < 0.25:
+    lines += rng.choice(NONEW_REBIND).split('\n')
+    tail = 'rebinds'
+  deleted_last = False
+  if rng.random() < 0.45:
+    src, name = rng.choice(NONEW_DEFINE)
+    lines += src.split('\n')
+    if rng.random() < 0.5:
+      lines += rng.choice(NONEW_BODY[:14]).split('\n')
+    lines.append(f'del {name}')
+    if tail == 'untouched':
+      tail = 'deletes-own'
+    deleted_last = rng.random() < 0.5
+  if not deleted_last:
+    lines += rng.choice(NONEW_LAST).split('\n')
+  return '\n'.join(lines) + '\n', tail
